@@ -8,7 +8,7 @@ RULE = ("update::parse_update_metadata on a string_view over an exact-size non-N
         "for BMP characters in upper / lower case hex, surrogate pairs, with duplicate keys, extra members of every JSON "
         "type, numbers of every grammatical shape, whitespace everywhere; then broken: truncation at EVERY offset of a "
         "document, lone high / low surrogates, a high surrogate followed by a non-surrogate escape, bad hex, bad escapes, "
-        "nesting of 1..70 and 1000 / 100000 / 400000 levels of [ and {\\\"a\\\": in value position, missing / mistyped fields, "
+        "nesting of 1..70 and 1000 / 100000 / 400000 levels of [ and {\\\"a\\\": in value position, nesting beyond the limit with an empty container / a scalar before the nested child at each level and mixed brackets, \\\\u escapes starting at every offset around 256 / 512 / 1024 / 4096 in long values and keys, missing / mistyped fields, "
         "random bytes. Oracle (independent of the model): python's json module with first-key-wins pairs plus a nesting "
         "counter -- success iff the document is JSON nested at most 64 deep with the required string fields, and then every "
         "reported field equals the UTF-8 encoding of the python value; never a crash, hang or sanitizer report. "
@@ -124,6 +124,31 @@ def generate(rng, tier):
             add('{"x":%s,"version":"v","tag":"t","commit":"c","channel":"s","generated_at":"g","downloads":{"p":{"url":"u"}}}' % deep, "nesting")
             if d >= 1000:
                 add(opener * d, "nesting-open")
+    # nesting beyond the limit reached through other shapes: an empty container before the nested child at every level,
+    # mixed brackets, a deep branch after a closed deep branch
+    shapes = [("[[],", "]"), ('{"a":{},"b":', "}"), ("[{},", "]"), ('{"a":[],"b":', "}"), ('[{"k":', "}]"), ("[1,", "]"), ('{"a":1,"b":', "}")]
+    for d in [63, 64, 65, 66, 101] + ([100000] if tier != "quick" else [20000]):
+        for op, cl in shapes:
+            per = 2 if op == '[{"k":' else 1
+            dd = max(1, d // per)
+            deep = op * dd + "1" + cl * dd
+            if d >= 20000:
+                add(op * dd, "nesting-open")
+            else:
+                add(wrap.replace('"version":%s', '"x":%s,"version":"v"') % deep, "nesting")
+    twice = "[" * 64 + "]" * 64
+    add(wrap.replace('"version":%s', '"x":[%s],"version":"v"') % (twice[1:-1] + "," + twice[1:-1]), "nesting")
+    # long literals: a \\u escape (2-, 3- and 4-byte characters) starting at every offset around a power of two, as a value
+    # and as an object key
+    for base_len in ([255, 256, 511, 512, 1023, 1024, 4095, 4096] if tier != "quick" else [256, 1024]):
+        for L in range(base_len - 4, base_len + 3):
+            for esc, ch in (("\\u00e9", "é"), ("\\u20AC", "€"), ("\\ud83d\\ude00", "😀")):
+                prefix = "".join(rng.choice("abcdefgh") for _ in range(L))
+                lit = '"' + prefix + esc + 'z"'
+                if rng.random() < 0.5:
+                    add(wrap % lit, "long-escape")
+                else:
+                    add('{"version":"v","tag":"t","commit":"c","channel":"s","generated_at":"g","downloads":{%s:{"url":"u"}}}' % lit, "long-escape")
     for _ in range(n):
         doc = rand_doc(rng)
         add(doc, "valid")
